@@ -4,7 +4,8 @@
    choice, cancellation of the caller's context at any point). *)
 From Coq Require Import List Arith Bool Lia.
 From Oras Require Import Model.CopyImpl Proofs.CopyImplBase Proofs.CopyImplInv Proofs.CopyImplInv2 Proofs.CopyImplLive
-  Proofs.CopyImplDeadlock Proofs.CopyImplFault Proofs.CopyImplTerm Proofs.CopyImplSucc Proofs.CopyImplSucc2.
+  Proofs.CopyImplDeadlock Proofs.CopyImplFault Proofs.CopyImplTerm Proofs.CopyImplSucc Proofs.CopyImplSucc2
+  Proofs.CopyImplOrder Proofs.CopyImplNoFault.
 Import ListNotations.
 
 Theorem C04_permits_conserved : forall succ K ext roots s, Reachable succ K ext roots s ->
@@ -99,6 +100,50 @@ Theorem C02_success_protocol : forall succ K ext roots,
   (forall n, tracker s n <> InProgress).
 Proof. exact success_tracker. Qed.
 Print Assumptions C02_success_protocol.
+
+(* Push ordering in the protocol, at EVERY reachable state (failed, cancelled and unfinished executions
+   included; this is the invariant behind C02_success_protocol, exported on the audit's request):
+   whenever the push step of a task of copyGraph.fn is enabled -- whatever its outcome -- every successor
+   of its node is Done in the tracker (its done channel is closed, which happens only after Exists=true
+   or a successful copyNode); the same for a task that is past its wait loop; and every node marked
+   "copied" has all successors Done.  A failed / cancelled wait never leads to TStart/TPush: LWaitCancel,
+   LStartFail and the "successor not committed" arm finish the task with an error. *)
+Theorem C02_push_after_done_protocol : forall succ K ext roots,
+  (forall n m, In m (succ n) -> m < n) ->
+  forall s t ok s', Reachable succ K ext roots s -> step succ s (LPush t ok) = Some s' ->
+  forall m, In m (succ (t_node (tasks s t))) -> is_done (tracker s m) = true.
+Proof. exact push_after_done. Qed.
+Print Assumptions C02_push_after_done_protocol.
+
+Theorem C02_past_wait_successors_done_protocol : forall succ K ext roots,
+  (forall n m, In m (succ n) -> m < n) ->
+  forall s t, Reachable succ K ext roots s ->
+  t_kind (tasks s t) = KFn -> (t_pc (tasks s t) = TStart \/ t_pc (tasks s t) = TPush) ->
+  forall m, In m (succ (t_node (tasks s t))) -> is_done (tracker s m) = true.
+Proof. exact past_wait_successors_done. Qed.
+Print Assumptions C02_past_wait_successors_done_protocol.
+
+Theorem C02_copied_successors_done_protocol : forall succ K ext roots,
+  (forall n m, In m (succ n) -> m < n) ->
+  forall s, Reachable succ K ext roots s ->
+  forall n, tracker s n = DoneCopied -> forall m, In m (succ n) -> is_done (tracker s m) = true.
+Proof. exact copied_successors_done. Qed.
+Print Assumptions C02_copied_successors_done_protocol.
+
+(* No fault => nil.  The converse of C02_fault_surfaces_protocol: in an execution from the initial state
+   in which no storage step / callback fails and the caller's context is not cancelled, nothing ever
+   records a failure -- in particular the "successor not committed" arm of copyGraph.fn is unreachable
+   (every node a parent waits for was tracked by a task of its own Go frame) and no wait / region.Start /
+   dispatch sees a cancelled context -- so once the execution has ended (C02_no_deadlock + C02_terminates:
+   it does end) the top-level syncutil.Go has returned nil; C02_success_protocol then gives "every root
+   Done, copied nodes have Done successors, nothing InProgress".  This is the middle step of "re-running
+   it without faults completes the graph". *)
+Theorem C02_nofault_returns_nil_protocol : forall succ K ext roots,
+  (forall n m, In m (succ n) -> m < n) ->
+  forall ls s, run succ (init K ext roots) ls = Some s ->
+  existsb is_fault ls = false -> is_final s = true -> failed s = false /\ result s = Some false.
+Proof. exact nofault_returns_nil. Qed.
+Print Assumptions C02_nofault_returns_nil_protocol.
 
 (* ---- the hypotheses are satisfiable: a concrete DAG (4 -> 3,2 ; 3 -> 1,2 ; 2 -> 0,1), complete runs *)
 Definition ex_succ (n : nat) : list nat :=
